@@ -3,6 +3,9 @@ import ParryModel.C09.Theorems6
 import ParryModel.C09.Theorems7
 import ParryModel.C09.Theorems8
 import ParryModel.C09.Theorems9
+import ParryModel.C09.Theorems10
+import ParryModel.C09.Theorems11
+import ParryModel.C09.Theorems12
 /-!
 # C09 property theorems (index).
 * `Theorems1` — interval enclosures (`+ - neg *`, enclose, intersect), box algebra, `scaled`, `transform_by`, composites
@@ -15,4 +18,7 @@ import ParryModel.C09.Theorems9
 * `Theorems7` — the `IntervalFunction` contract holds for the polynomial family (non-vacuity of `Theorems6`)
 * `Theorems8` — `Interval::sin` / `Interval::cos` over ℝ
 * `Theorems9` — Ball, Cuboid, Capsule boxes contain the posed shape
+* `Theorems10` — Capsule / Triangle / Segment bounding spheres, `BoundingSphere::{transform_by, loosened, merged}`
+* `Theorems11` — `SimdAabb::{scaled, loosen, dilate_by_factor, contains_local_point, distance_to_local_point, to_merged_aabb}` lanes, `Aabb::tightened`
+* `Theorems12` — tightness: `Aabb::transform_by` is exact; Cuboid, Ball, Capsule, Triangle boxes touch the posed shape on every face
 -/
